@@ -26,6 +26,8 @@ mod point;
 mod range;
 mod select;
 mod truncate;
+#[cfg(feature = "verif")]
+mod verif;
 
 #[cfg(test)]
 mod tests;
